@@ -1056,7 +1056,7 @@ class Particle:
         if np.isnan(self.px) or np.isnan(self.py):
             return np.nan
         else:
-            if (np.abs(self.px) < 1e-6) and (np.abs(self.py) < 1e-6):
+            if self.pT_abs() < 1e-6:
                 return 0.0
             else:
                 return math.atan2(self.py, self.px)
